@@ -334,6 +334,9 @@ def main():
 def check(pid, spec, tier, seed, replay, t0):
     os.makedirs(os.path.join(ROOT, "evidence"), exist_ok=True)
     os.makedirs(os.path.join(ROOT, "replays"), exist_ok=True)
+    stale = os.path.join(ROOT, "replays", f"{pid}-{tier}-{seed}.json")
+    if os.path.exists(stale) and not replay:
+        os.remove(stale)
     build_harness()
     facts = extract_facts()
 
